@@ -15,7 +15,8 @@ VARIABLES chunk, phase
 Present(o) == "absent" \notin DOMAIN o
 Key(o) == IF "ok" \in DOMAIN o THEN [ok |-> o.ok]
           ELSE IF "err" \in DOMAIN o THEN [err |-> o.err.kind, class |-> o.err.class, stage |-> "stage" \in DOMAIN o]
-          ELSE [crash |-> TRUE]
+          ELSE IF \E k \in {"panic", "abort", "timeout", "harness"} : k \in DOMAIN o THEN [crash |-> TRUE]
+          ELSE [whole |-> o]                       \* records of other engines (JSON texts: printed text, bit patterns, ...) are compared whole
 WhyEval(r) ==
   LET ps == {i \in DOMAIN r.outs : Present(r.outs[i])} IN
   IF \E i \in ps : "crash" \in DOMAIN Key(r.outs[i]) THEN "crash"
